@@ -43,6 +43,23 @@ class C15(Prop):
                 cut = 1 + rng.randrange(len(items) - 1)
                 cuts = [cut] + ([cut + 1] if cut + 1 < len(items) and rng.random() < 0.3 else [])
                 add(assemble(plan, 'attr' if rng.random() < 0.5 else 'derive', cuts), 'split')
+            # stacked lists with DIFFERENT shared arguments: what a list shares (bound, dump) stays inside that list, so
+            # the stacked request expands to what the two lists expand to on their own
+            present0 = set(n for n in HELPER_NAMES if ('(%s ' % _sx_name(n)) in plan['item'])
+            names = [t for t, _ in items]
+            if len(items) > 1 and len(set(names)) == len(names):
+                cut = 1 + rng.randrange(len(items) - 1)
+                own_all = owned_names(names) & present0
+                # (each list must own, on its own, every helper attribute present on the item that the whole request
+                # owns - otherwise the lists are not independent: the other list changes which attributes are read)
+                if owned_names(names[:cut]) & present0 == own_all and owned_names(names[cut:]) & present0 == own_all:
+                    b1, _ = g.bound_items()
+                    b2, _ = g.bound_items()
+                    m = 'attr' if rng.random() < 0.5 else 'derive'
+                    flags = [(b1, False), (b2, False)]
+                    add(assemble(plan, m, [cut], list_flags=flags), 'pl-both')
+                    add(assemble(dict(plan, shared_bound=b1, shared_dump=False), m, items=items[:cut], extra_feats=['per-list']), 'pl-1')
+                    add(assemble(dict(plan, shared_bound=b2, shared_dump=False), m, items=items[cut:], extra_feats=['per-list']), 'pl-2')
             # superset: only traits that own none of the attribute names present on the item
             present = set(n for n in HELPER_NAMES if ('(%s ' % _sx_name(n)) in plan['item'])
             base_owned = owned_names([t for t, _ in items])
@@ -84,6 +101,18 @@ class C15(Prop):
                         failures.append(dict(**{'class': 'entry-point-or-split-differs', 'mode': role},
                                              input=g['attr'].input_text(), other_input=g[role].input_text(),
                                              expected=base[:4], observed=got[:4]))
+                    else:
+                        validated += 1
+            if 'pl-both' in g:
+                both, p1, p2 = (impl_parts(g[k].actual) for k in ('pl-both', 'pl-1', 'pl-2'))
+                ok_kinds = ('IMPL', 'CONST', 'DUMP')
+                # only when neither part is a list-level error (such an error replaces the whole expansion)
+                if all(p and all(x[0] in ok_kinds or len(p) > 1 for x in p) for p in (both, p1, p2)) and \
+                        not any(len(p) == 1 and p[0][0] == 'ERR' for p in (both, p1, p2)):
+                    if both != p1 + p2:
+                        failures.append(dict(**{'class': 'shared-arguments-cross-lists', 'mode': 'per-list'},
+                                             input=g['pl-both'].input_text(), first_list=g['pl-1'].input_text(),
+                                             second_list=g['pl-2'].input_text(), expected=(p1 + p2)[:4], observed=both[:4]))
                     else:
                         validated += 1
             if 'super' in g:
